@@ -217,27 +217,39 @@ class _Arith(S):
     __slots__ = ()
 
     def __add__(self, o):
-        if isinstance(o, np.ndarray) or hasattr(o, "_pyvc_array"):
+        if isinstance(o, np.ndarray):
+            return _ew(lambda a, b: s_add(b, a), o, self)
+        if hasattr(o, "_pyvc_array"):
             return NotImplemented
         return s_add(self, o)
 
     def __radd__(self, o):
+        if isinstance(o, np.ndarray):
+            return _ew(s_add, o, self)
         return s_add(o, self)
 
     def __sub__(self, o):
-        if isinstance(o, np.ndarray) or hasattr(o, "_pyvc_array"):
+        if isinstance(o, np.ndarray):
+            return _ew(lambda a, b: s_sub(b, a), o, self)
+        if hasattr(o, "_pyvc_array"):
             return NotImplemented
         return s_sub(self, o)
 
     def __rsub__(self, o):
+        if isinstance(o, np.ndarray):
+            return _ew(s_sub, o, self)
         return s_sub(o, self)
 
     def __mul__(self, o):
-        if isinstance(o, np.ndarray) or hasattr(o, "_pyvc_array"):
+        if isinstance(o, np.ndarray):
+            return _ew(lambda a, b: s_mul(b, a), o, self)
+        if hasattr(o, "_pyvc_array"):
             return NotImplemented
         return s_mul(self, o)
 
     def __rmul__(self, o):
+        if isinstance(o, np.ndarray):
+            return _ew(s_mul, o, self)
         return s_mul(o, self)
 
     def __truediv__(self, o):
@@ -519,7 +531,7 @@ def ssqrt(x, square_axiom=True):
     y = uf("sqrt", R, R)(t)
     c = cur()
     if square_axiom:
-        if known(wrap(t >= 0)) is True:
+        if known(wrap(t >= 0), deep=True) is True:
             c.axiom(y >= 0, "sqrt")
             c.axiom(y * y == t, "sqrt.sq")
         else:
